@@ -195,7 +195,8 @@ def deep_cases(tier):
                 '=' + '0' * 5000, '=' + '0' * 5000 + '7', '=' + '0' * 5000 + '1e2', '=1e' + '0' * 5000 + '2', '=1e-' + '0' * 5000, '=' + '1' * 5000 + '.5', '=1.' + '1' * 5000,
                 '=0.' + '0' * 5000 + '1', '=' + '9' * 309, '=1' + '0' * 308, '=1' + '0' * 308 + 'e0', '=1e308', '=1.8e308', '=17976931348623158' + '0' * 292,
                 '="' + 'a' * 100000 + '"', '="' + '""' * 50000 + '"', '=' + ' ' * 100000 + '1', '=A' + '1' * 5000, '=' + 'A' * 5000 + '1', "='" + 'x' * 5000 + "'!A1"]
-    return cases + [('literal', i, f) for i, f in enumerate(literals)]
+    chains = [('chain-' + direction, n, {'chain': [direction, n]}) for direction in ('row', 'column') for n in ([150, 1200] if tier == 'quick' else [150, 600, 1200, 3000])]
+    return cases + [('literal', i, f) for i, f in enumerate(literals)] + chains
 
 
 def deep(chk, tier):
@@ -218,10 +219,13 @@ def deep(chk, tier):
             chk.count('deep:' + name)
             chk.seen(('deep', name, d))
             t0 = time.time()
-            proc.stdin.write(json.dumps({'formula': f}) + '\n')
+            proc.stdin.write(json.dumps(f if isinstance(f, dict) else {'formula': f}) + '\n')
             proc.stdin.flush()
             ready, _, _ = select.select([proc.stdout], [], [], limit)
-            short = f if len(f) < 120 else f[:60] + ' … ' + f[-30:] + ' (%d characters)' % len(f)
+            if isinstance(f, dict):
+                short = 'a running total of %d cells along one %s (A1 = 1, every next cell = the previous one + 1)' % (f['chain'][1], f['chain'][0])
+            else:
+                short = f if len(f) < 120 else f[:60] + ' … ' + f[-30:] + ' (%d characters)' % len(f)
             if not ready:
                 proc.kill()
                 proc.wait()
@@ -245,7 +249,7 @@ def deep(chk, tier):
                     chk.violation({'why': 'translation ends with a foreign exception', 'shape': name, 'size': d, 'formula': short, 'impl': tr, 'stream': 'deep-translate'})
             elif out.get('load') != 'ok':
                 chk.violation({'why': 'the returned class does not load', 'shape': name, 'size': d, 'formula': short, 'impl': out.get('load'), 'stream': 'deep-load'})
-            elif out.get('evaluate', '').startswith('E') and out['evaluate'][1:] in BROKEN_AT_EVAL | {'RecursionError'}:
+            elif not isinstance(f, dict) and out.get('evaluate', '').startswith('E') and out['evaluate'][1:] in BROKEN_AT_EVAL | {'RecursionError'}:
                 chk.violation({'why': 'the member of a deeply nested formula cannot be evaluated', 'shape': name, 'size': d, 'formula': short, 'impl': out.get('evaluate'),
                                'stream': 'deep-evaluate'})
     finally:
